@@ -213,7 +213,7 @@ void for_exec(ForCtx<Range, Body> &c, Range &range) {
             std::exception_ptr mine;
             try { for_exec(c, range); } catch (const sim::SimAbort&) { s.join(id); throw; } catch (...) { mine = std::current_exception(); }
             sim::strand_delta(-1);
-            s.join(id);
+            s.join(id, true);
             sim::strand_resume(c.W);
             if (s.is_aborting()) throw sim::SimAbort();
             if (mine) std::rethrow_exception(mine);
@@ -306,7 +306,7 @@ void red_exec(RedCtx<Range, Value, Body, Red> &c, Range &range, Value &acc) {
             catch (const sim::SimAbort&) { s.join(id); if (st.constructed) st.value().~Value(); throw; }
             catch (...) { mine = std::current_exception(); }
             sim::strand_delta(-1);
-            s.join(id);
+            s.join(id, true);
             sim::strand_resume(c.W);
             struct Cleanup { RedStrand<Range, Value, Body, Red> &st; ~Cleanup() { if (st.constructed) st.value().~Value(); } } cleanup { st };
             if (s.is_aborting()) throw sim::SimAbort();
